@@ -196,6 +196,8 @@ Definition dispatch_sig (op : bytes) (args : list sx) : option sx :=
   else if bytes_eqb op (s2b "ib_sign_and_add") then Some (op_ib_sign_and_add args)
   else if bytes_eqb op (s2b "ib_sign_file") then Some (op_ib_sign_file args)
   else if bytes_eqb op (s2b "ib_sign_attempts") then Some (op_ib_sign_attempts args)
+  (* two signer objects on one block: the block is the only state, so the answer is that of one signer *)
+  else if bytes_eqb op (s2b "ib_sign_shared") then Some (op_ib_sign_attempts args)
   (* CanSignForURL against the standard library's hostname matching: the harness compares *)
   else if bytes_eqb op (s2b "bsig_can_sign") then Some (SL [sym "same"])
   (* a chain object shared by the first signer of two bundles: both bundles verify afterwards *)
